@@ -280,6 +280,9 @@ def run(ctx) -> Report:
         rep.ok("C17-policy", term_default, "default for terminals is _missing_rule (raises)")
     else:
         rep.violation("C17-policy", cls, "terminal = ...", "the default rule for terminals no longer raises: new terminal types would pass unrestricted")
+    from ..memokey import check_memo_keys
+
+    check_memo_keys(ctx, rep, "C17-key", ["ufl.algorithms.apply_restrictions"], min_sites=1)
     rep.require_min("C17-value", 60)
     rep.require_min("C17-reject", 30)
     rep.require_min("C17-policy", 50)
